@@ -125,6 +125,37 @@ def native_run(module, cname, cases, override=None, timeout=600):
         return [{'error': 'native runner output unparsable: ' + p.stdout[-1000:] + p.stderr[-1000:]}] * len(cases)
 
 
+def native_batch(jobs, timeout=1200):
+    """jobs: list of {'module','contract','cases'}; returns list of result lists (16 processes)."""
+    from concurrent.futures import ThreadPoolExecutor
+    if not jobs:
+        return []
+    nchunks = min(16, len(jobs))
+    chunks = [jobs[i::nchunks] for i in range(nchunks)]
+
+    def run_chunk(chunk):
+        env = dict(os.environ)
+        env['PYTHONPATH'] = VERIF + os.pathsep + REPO
+        env.setdefault('OPENMDAO_REPORTS', '0')
+        env['PYTHONWARNINGS'] = 'ignore'
+        try:
+            p = subprocess.run([NATIVE_PY, os.path.join(VERIF, 'pyvc', 'native.py')],
+                               input=json.dumps({'jobs': chunk}), capture_output=True, text=True,
+                               timeout=timeout, env=env, cwd='/tmp')
+            if p.returncode != 0:
+                raise RuntimeError(p.stderr[-1500:])
+            return json.loads(p.stdout.strip().splitlines()[-1])
+        except Exception as e:
+            return [[{'error': 'native batch failed: %s' % e}] * len(j['cases']) for j in chunk]
+    with ThreadPoolExecutor(nchunks) as ex:
+        outs = list(ex.map(run_chunk, chunks))
+    res = [None] * len(jobs)
+    for ci, out in enumerate(outs):
+        for k, r in enumerate(out):
+            res[ci + k * nchunks] = r
+    return res
+
+
 def load_json(path, default):
     try:
         with open(path) as f:
@@ -244,6 +275,38 @@ def run_check(prop, tier, seed):
         if status == 'SURVIVED':
             machinery_errors.append('canary survived: %s — %s (engine or contract too weak)' % (r['name'], r['desc']))
 
+    # ---- native sampling of the contracts on the real code (bounded, never counted as proof) ---
+    from pyvc import sample as sampler
+    nsamp = 12 if tier == 'quick' else 120
+    sjobs = []
+    for c in cs:
+        if c.native and not getattr(c, 'no_sampling', False):
+            sjobs.append({'module': c._module, 'contract': c.name, 'cases': sampler.samples(c, nsamp, seed)})
+    sres = native_batch(sjobs)
+    samp_total = samp_checked = 0
+    samp_records = []
+    for jb, rs in zip(sjobs, sres):
+        ok = sum(1 for r in rs if r.get('pre_ok') and not r.get('failed') and not r.get('error'))
+        skipped = sum(1 for r in rs if r.get('pre_ok') is False)
+        errs = [r for r in rs if r.get('error')]
+        fails = [(i, r) for i, r in enumerate(rs) if r.get('pre_ok') and r.get('failed')]
+        samp_total += len(rs)
+        samp_checked += ok
+        samp_records.append({'contract': jb['contract'], 'cases': len(rs), 'held': ok,
+                             'precondition_false': skipped, 'errors': len(errs)})
+        if errs and len(errs) == len(rs):
+            undecided.append({'contract': jb['contract'], 'why': 'native sampler could not run: %s' % str(errs[0]['error'])[-300:]})
+        for i, r in fails[:1]:
+            c = CONTRACTS[jb['contract']]
+            rid = hashlib.sha1(json.dumps(jb['cases'][i], sort_keys=True, default=str).encode()).hexdigest()[:10]
+            path = os.path.join('replay', '%s-sample-%s.json' % (prop, rid))
+            with open(os.path.join(VERIF, path), 'w') as f:
+                json.dump({'property': prop, 'contract': c.name, 'module': c._module, 'target': c.target,
+                           'kind': 'native-sample', 'model': jb['cases'][i], 'native': r}, f, indent=1, default=str)
+            key = 'sample|%s|%s' % (c.name, r['failed'][0]['clause'])
+            if not any(kf.get('contract') == c.name and kf.get('clause') == r['failed'][0]['clause'] for kf in known_here):
+                violations.append((key, path, ''))
+
     # ---- extra tiers (lemmas / lean / bounded) -------------------------------------------
     extra = {}
     hook = contracts.EXTRA_TIERS.get(prop)
@@ -289,6 +352,7 @@ def run_check(prop, tier, seed):
             'unverified': contracts.GAPS.get(prop, []),
             'solver_seconds': round(sum(f['solver_seconds'] for f in fn_records), 2),
             'known_findings_excluded': [k['what'] for k in known_here],
+            'bounded_native_samples': {'note': 'bounded stand-in / sanity tier, NOT counted in obligations', 'cases': samp_total, 'held': samp_checked, 'per_contract': samp_records},
         },
         'assumptions': contracts.ASSUMPTIONS + contracts.PROPERTY_ASSUMPTIONS.get(prop, []),
         'wall_s': round(wall, 2),
